@@ -507,6 +507,8 @@ def directed():
   cfgs.append(("quantized_bits", {"bits": 4, "alpha": "auto_po2",
                                   "max_po2_exponent": -3}))
   cfgs.append(("quantized_bits", {"bits": 4}))     # alpha None -> TRAINABLE
+  group_cases = [([4, 6], [0, 1], [2, 3]), ([2, 4, 6], [1, 2], [2, 2]),
+                 ([2, 4, 6, 8], [1, 3], [2, 4]), ([1, 4, 4, 8], [2, 3], 2)]
   for cls, kw in cfgs:
     for shape in shapes:
       if "scale_axis" in kw and kw["scale_axis"] >= len(shape):
@@ -534,6 +536,15 @@ def directed():
           cls, json.dumps(kw, sort_keys=True), len(shape)), "seed": 1,
                   "world": {"quantizers": [{"cls": cls, "kw": dict(kw),
                                             "shape": shape}]}, "ops": ops})
+  for gi, (shape, ax, eps) in enumerate(group_cases):
+    ops = []
+    for j, t in enumerate(tensors[:3]):
+      ops.append({"k": "CALL", "q": 0, "t": t, "sub": j})
+      ops.append({"k": "READ_SCALE", "q": 0})
+    out.append({"label": "directed:grouping:%d" % gi, "seed": 1, "world": {
+        "quantizers": [{"cls": "quantized_bits", "kw": {
+            "bits": 4, "alpha": "auto_po2", "scale_axis": ax,
+            "elements_per_scale": eps}, "shape": shape}]}, "ops": ops})
   return out
 
 
